@@ -81,6 +81,11 @@ theorem rewards_as_shifts (p : Params) (h1 h2 : Nat) (r1 r2 : Int)
 
 /-! ### coinbase -/
 
+theorem legacy_split (t a b : Fixed64) : 0 + a + b + (t - a - b) = t := by
+  have h1 : 0 + a = a := BitVec.zero_add a
+  rw [h1, BitVec.add_assoc, BitVec.add_comm b, BitVec.sub_add_cancel, BitVec.add_comm, BitVec.sub_add_cancel]
+
+
 theorem three_way_split (t a d : Fixed64) : 0 + a + (t - a - d) + d = t := by
   have h1 : 0 + a = a := BitVec.zero_add a
   rw [h1, BitVec.add_assoc, BitVec.sub_add_cancel, BitVec.add_comm, BitVec.sub_add_cancel]
